@@ -203,6 +203,12 @@ impl World {
                 // every step is instantiated, even after a failure would already be known
                 let v = self.eval_step(c, s, depth + 1)?;
                 total = total.add(v);
+                // inside a pipeline the stack handlers really move data around: the
+                // result is no longer a sum of translations
+                let name = s.split_whitespace().next().unwrap_or("");
+                if ["stack", "push", "pop"].contains(&name) {
+                    total = Val::Opaque;
+                }
             }
             return Some(total);
         }
